@@ -25,7 +25,8 @@ from .values import DictView, LazyMap, Obj, SeqVal, SymList
 
 
 class LoopContract:
-    def __init__(self, invariant, modifies=(), ghosts=(), kinds=None, variant=None, name=None):
+    def __init__(self, invariant, modifies=(), ghosts=(), kinds=None, variant=None, name=None, fields=()):
+        self.fields = tuple(fields)  # (local name, field name) of transient objects whose field the loop rewrites
         self.invariant = invariant  # python function (L, old, G[, visited|i]) -> bool
         self.modifies = tuple(modifies)  # column prefixes, e.g. "sensors.queue"
         self.ghosts = tuple(ghosts)
@@ -36,7 +37,7 @@ class LoopContract:
 
 def _loop_key(it, frame):
     fn = frame.func
-    mod = getattr(fn, "__module__", None) or (fn.globals.get("__name__") if hasattr(fn, "globals") else None)
+    mod = fn.globals.get("__name__") if hasattr(fn, "globals") else getattr(fn, "__module__", None)
     k = (mod, frame.name, frame.loop_ordinal)
     frame.loop_ordinal += 1
     return k
@@ -195,6 +196,9 @@ def _cut_loop(it, node, frame, key, lc, kind, iterinfo=None):
     for g in lc.ghosts:
         cur = ctx.ghost[g]
         ctx.ghost[g] = _havoc_ghost(it, g, cur)
+    for lname, fname in lc.fields:
+        o = frame.lookup(lname)
+        o.fields[fname] = _havoc_ghost(it, f"{lname}.{fname}", o.fields[fname])
     extra = iterinfo.arbitrary(it) if iterinfo else []
     _eval_inv(it, lc, frame, old_ns, extra, "assume", oname + ".inv")
     # ---- continue or exit
@@ -214,7 +218,9 @@ def _cut_loop(it, node, frame, key, lc, kind, iterinfo=None):
             if log_prev is not None:
                 log_prev.extend(wl)
         if r == "break":
-            raise Unsupported("break inside a loop cut at its invariant")
+            # leaving the loop from an arbitrary iteration: execution continues after the loop
+            _check_frame(it, wl, lc, key)
+            return
         _check_frame(it, wl, lc, key)
         extra2 = iterinfo.advanced(it) if iterinfo else []
         _eval_inv(it, lc, frame, old_ns, extra2, "assert", oname + ".pres")
